@@ -17,11 +17,20 @@ import (
 	"verifharness/plangen"
 	"verifharness/storelib"
 
+	"github.com/element-of-surprise/coercion/plugins"
 	"github.com/element-of-surprise/coercion/workflow"
 	"github.com/google/uuid"
 )
 
+// lastWrite is what the harness last sent for an object through an Update* that returned nil.
+type lastWrite struct {
+	st   workflow.State
+	atts *core.Rand // PRNG state the attempts were generated from (nil: no attempts)
+	rs   workflow.FailureReason
+}
+
 type planSlot struct {
+	last    map[uuid.UUID]*lastWrite
 	mk      func() *workflow.Plan // a fresh, structurally equal copy on every call
 	ref     *workflow.Plan        // ids and shape (never handed to a vault)
 	live    bool
@@ -43,6 +52,10 @@ func maker(seed *core.Rand, big bool, nilSlices bool) func() *workflow.Plan {
 		storelib.Materialize(r, p, storelib.MatOpts{AnyP: 0.15, NilReqP: 0.04})
 		if nilSlices {
 			reshape(r, p)
+		}
+		if len(storelib.ObjectsOf(p).Actions) > 0 && len(p.Blocks) > 0 && r.Chance(0.08) {
+			// one string that is not valid UTF-8 somewhere: the JSON codec refuses it (TEXT columns keep it)
+			storelib.Taint(r, p)
 		}
 		if as := storelib.ObjectsOf(p).Actions; len(as) > 0 && r.Chance(0.06) {
 			// a request the codec refuses: Create must fail and store nothing (C14 plants these systematically)
@@ -95,6 +108,7 @@ func closeVault(b *storelib.Backend, rec *storelib.Rec) {
 func main() {
 	nOps := flag.Int("oplists", 48, "number of operation-list cases")
 	nSingle := flag.Int("singles", 60, "number of create+read cases with big plans")
+	nAlone := flag.Int("alone", 6, "number of cases that vary every updatable field alone")
 	nReg := flag.Int("regchange", 8, "number of cases that read through a registry with a changed response type")
 	nPaged := flag.Int("paged", 9, "number of cosmosdb create+read cases with paged query results")
 	maxOps := flag.Int("max-ops", 30, "maximum operation list length")
@@ -134,6 +148,83 @@ func main() {
 			ID: fmt.Sprintf("paged-%d", i), Kind: "paged", Coq: rec.CaseTerm(), Nontrivial: true, Hash: core.Hash(rec.CaseTerm()),
 			Dist: map[string]any{"backend": bk, "plans": 1, "ops": rec.Steps(), "reads": rec.Reads, "table": rec.TableSize(),
 				"ophist": rec.OpHist, "objects": objects([]*planSlot{{ref: ref}}), "page_size": b.PageSize},
+			Input: map[string]any{"seed": core.Seed(), "index": i, "backend": bk}, Observed: rec.Log, Note: rec.Note(),
+		})
+		closeVault(b, rec)
+	}
+
+	// family alone: every field an Update* may change is varied ALONE, and identical values are written again:
+	// the same State with other attempts (appended, replaced, cleared), only Start / End / Status, only the
+	// reason, a byte-identical rewrite - for every kind of object, on every back end.
+	for i := 0; i < *nAlone; i++ {
+		r := root.Fork(uint64(700000 + i))
+		bk := []string{"sqlite-mem", "sqlite-file", "cosmos-fake"}[i%3]
+		set := storelib.NewSet()
+		b, err := storelib.Open(ctx, bk, set)
+		if err != nil {
+			fmt.Fprintln(os.Stderr, "open", bk, err)
+			os.Exit(2)
+		}
+		rec := storelib.NewRec(ctx, b, set)
+		seed := r.Fork(1)
+		mk := func() *workflow.Plan {
+			q := seed.Fork(0)
+			p := plangen.New(q, plangen.Opts{GroupP: 0.3, MaxBlocks: 1, MaxSeqs: 2, MaxActions: 2, MaxCheckActions: 1, KeyP: 0.2, AltP: 0.3}).Plan()
+			if p.PreChecks == nil {
+				p.PreChecks = plangen.New(q, plangen.Opts{MaxCheckActions: 1}).Checks("p/pre")
+			}
+			storelib.Materialize(q, p, storelib.MatOpts{AnyP: 0.1})
+			return p
+		}
+		ref := mk()
+		o := storelib.ObjectsOf(ref)
+		pid := ref.ID
+		rec.IDs = []uuid.UUID{pid}
+		rec.Create(mk(), mk(), "create")
+		st := *storelib.RandState(r)
+		st.Start, st.End = time.Unix(1700000000, 5), time.Unix(1700000100, 6)
+		cp := func(s workflow.State) *workflow.State { return &s }
+		vary := func(upd func(*workflow.State)) {
+			upd(cp(st)) // a first value
+			upd(cp(st)) // the identical value again
+			s2 := st
+			s2.End = time.Unix(1700000200, 7)
+			upd(cp(s2)) // only End
+			s3 := s2
+			s3.Start = time.Time{}
+			upd(cp(s3)) // only Start
+			s4 := s3
+			s4.Status = []workflow.Status{workflow.Failed, workflow.Completed}[int(s3.Status)/300%2]
+			upd(cp(s4)) // only Status
+		}
+		// action: same State, attempts appended / replaced / cleared / identical
+		a := o.Actions[r.Intn(len(o.Actions))]
+		att := func(k int) []*workflow.Attempt { return storelib.RandAttempts(r.Fork(uint64(40+k)).Fork(0), a.Plugin) }
+		one := func(k int) []*workflow.Attempt {
+			return []*workflow.Attempt{{Resp: storelib.RandResp(seed.Fork(uint64(60+k)), a.Plugin), Start: time.Unix(int64(1700000000+k), 1), End: time.Unix(int64(1700000001+k), 2)}}
+		}
+		ua := func(s workflow.State, mkAtts func() []*workflow.Attempt) {
+			rec.UpdateAction(pid, a.ID, a.Plugin, cp(s), mkAtts(), mkAtts())
+		}
+		ua(st, func() []*workflow.Attempt { return nil })                                  // the state of Start's write, no attempt yet
+		ua(st, func() []*workflow.Attempt { return one(1) })                               // exec's write: same State, first attempt
+		ua(st, func() []*workflow.Attempt { return append(one(1), one(2)...) })            // appended
+		ua(st, func() []*workflow.Attempt { return append(one(1), one(2)...) })            // identical
+		ua(st, func() []*workflow.Attempt { return att(3) })                               // replaced
+		ua(st, func() []*workflow.Attempt { return []*workflow.Attempt{} })                // cleared
+		vary(func(s *workflow.State) { rec.UpdateAction(pid, a.ID, a.Plugin, s, one(4), one(4)) })
+		vary(func(s *workflow.State) { rec.UpdateBlock(pid, o.Blocks[0].ID, s) })
+		vary(func(s *workflow.State) { rec.UpdateSequence(pid, o.Seqs[len(o.Seqs)-1].ID, s) })
+		vary(func(s *workflow.State) { rec.UpdateChecks(pid, o.Checks[0].ID, s) })
+		// plan: only the reason, only the state, identical
+		rec.UpdatePlan(pid, workflow.FRBlock, cp(st), ref.SubmitTime)
+		rec.UpdatePlan(pid, workflow.FRStopped, cp(st), ref.SubmitTime)
+		rec.UpdatePlan(pid, workflow.FRStopped, cp(st), ref.SubmitTime)
+		vary(func(s *workflow.State) { rec.UpdatePlan(pid, workflow.FRStopped, s, ref.SubmitTime) })
+		w.Put(core.Case{
+			ID: fmt.Sprintf("alone-%d", i), Kind: "alone", Coq: rec.CaseTerm(), Nontrivial: true, Hash: core.Hash(rec.CaseTerm()),
+			Dist: map[string]any{"backend": bk, "plans": 1, "ops": rec.Steps(), "reads": rec.Reads, "table": rec.TableSize(),
+				"ophist": rec.OpHist, "objects": objects([]*planSlot{{ref: ref}})},
 			Input: map[string]any{"seed": core.Seed(), "index": i, "backend": bk}, Observed: rec.Log, Note: rec.Note(),
 		})
 		closeVault(b, rec)
@@ -230,7 +321,7 @@ func main() {
 		slots := make([]*planSlot, nPlans)
 		for j := range slots {
 			mk := maker(r.Fork(uint64(100+j)), single, !cosmos)
-			slots[j] = &planSlot{mk: mk, ref: mk()}
+			slots[j] = &planSlot{mk: mk, ref: mk(), last: map[uuid.UUID]*lastWrite{}}
 			rec.IDs = append(rec.IDs, slots[j].ref.ID)
 		}
 		rec.IDs = append(rec.IDs, plangen.V7(r)) // never created
@@ -313,43 +404,106 @@ func update(r *core.Rand, rec *storelib.Rec, s *planSlot, cosmos bool) {
 	o := storelib.ObjectsOf(s.ref)
 	pid := s.ref.ID
 	st := storelib.RandState(r)
+	// vary ONE thing: with some probability the state is byte-identical to the last one written for the
+	// object (so only the attempts / the reason change, or nothing at all), or differs in one field only
+	same := func(id uuid.UUID) *workflow.State {
+		lw := s.last[id]
+		if lw == nil || !r.Chance(0.45) {
+			return st
+		}
+		c := lw.st
+		switch r.Intn(5) {
+		case 0:
+			c.Start = storelib.RandTime(r)
+		case 1:
+			c.End = storelib.RandTime(r)
+		case 2:
+			c.Status = st.Status
+		}
+		return &c
+	}
+	wrote := func(id uuid.UUID, x *workflow.State, err error) *lastWrite {
+		if err != nil {
+			return nil
+		}
+		lw := s.last[id]
+		if lw == nil {
+			lw = &lastWrite{}
+			s.last[id] = lw
+		}
+		lw.st = *x
+		return lw
+	}
 	switch r.Intn(6) {
 	case 0:
 		sub := s.ref.SubmitTime
 		if !cosmos || r.Chance(0.3) {
 			sub = storelib.RandTime(r) // sqlite must ignore it; cosmosdb patches it
 		}
-		rec.UpdatePlan(pid, storelib.RandReason(r), st, sub)
+		x := same(pid)
+		rs := storelib.RandReason(r)
+		if lw := s.last[pid]; lw != nil && r.Chance(0.4) {
+			rs = lw.rs
+		}
+		if lw := wrote(pid, x, rec.UpdatePlan(pid, rs, x, sub)); lw != nil {
+			lw.rs = rs
+		}
 	case 1:
 		if len(o.Blocks) > 0 {
-			rec.UpdateBlock(pid, o.Blocks[r.Intn(len(o.Blocks))].ID, st)
+			id := o.Blocks[r.Intn(len(o.Blocks))].ID
+			x := same(id)
+			wrote(id, x, rec.UpdateBlock(pid, id, x))
 		} else if !cosmos {
 			rec.UpdateBlock(pid, uuid.Nil, st)
 		}
 	case 2:
 		if len(o.Checks) > 0 {
-			rec.UpdateChecks(pid, o.Checks[r.Intn(len(o.Checks))].ID, st)
+			id := o.Checks[r.Intn(len(o.Checks))].ID
+			x := same(id)
+			wrote(id, x, rec.UpdateChecks(pid, id, x))
 		} else if len(o.Seqs) > 0 {
-			rec.UpdateSequence(pid, o.Seqs[r.Intn(len(o.Seqs))].ID, st)
+			id := o.Seqs[r.Intn(len(o.Seqs))].ID
+			x := same(id)
+			wrote(id, x, rec.UpdateSequence(pid, id, x))
 		}
 	case 3:
 		if len(o.Seqs) > 0 {
-			rec.UpdateSequence(pid, o.Seqs[r.Intn(len(o.Seqs))].ID, st)
+			id := o.Seqs[r.Intn(len(o.Seqs))].ID
+			x := same(id)
+			wrote(id, x, rec.UpdateSequence(pid, id, x))
 		}
 	default:
 		if len(o.Actions) == 0 {
 			return
 		}
 		a := o.Actions[r.Intn(len(o.Actions))]
-		f := r.Fork(7)
-		g := r.Fork(7)
-		atts, ref := storelib.RandAttempts(f, a.Plugin), storelib.RandAttempts(g, a.Plugin)
+		x := same(a.ID)
+		seed := r.Fork(7)
+		if lw := s.last[a.ID]; lw != nil && lw.atts != nil && r.Chance(0.3) {
+			seed = lw.atts // the very same attempts again
+		}
+		atts, ref := storelib.RandAttempts(seed.Fork(0), a.Plugin), storelib.RandAttempts(seed.Fork(0), a.Plugin)
+		if lw := s.last[a.ID]; lw != nil && lw.atts != nil && r.Chance(0.3) {
+			// the attempts written last, plus one more (what the engine does after every execution)
+			atts = append(storelib.RandAttempts(lw.atts.Fork(0), a.Plugin), atts...)
+			ref = append(storelib.RandAttempts(lw.atts.Fork(0), a.Plugin), ref...)
+			seed = nil
+		}
+		if r.Chance(0.04) && len(atts) > 0 {
+			// an error message that is not valid UTF-8: the codec refuses the attempt
+			k := r.Intn(len(atts))
+			bad := "boom " + storelib.InvalidUTF8[r.Intn(len(storelib.InvalidUTF8))]
+			atts[k].Err = &plugins.Error{Code: 3, Message: "outer", Wrapped: &plugins.Error{Code: 4, Message: bad}}
+			ref[k].Err = &plugins.Error{Code: 3, Message: "outer", Wrapped: &plugins.Error{Code: 4, Message: bad}}
+		}
 		if r.Chance(0.06) && len(atts) > 0 {
 			// a response the codec refuses: the update must fail and change nothing
 			k := r.Intn(len(atts))
 			atts[k].Resp = storelib.Unencodable{C: make(chan int)}
 			ref[k].Resp = storelib.Unencodable{}
 		}
-		rec.UpdateAction(pid, a.ID, a.Plugin, st, atts, ref)
+		if lw := wrote(a.ID, x, rec.UpdateAction(pid, a.ID, a.Plugin, x, atts, ref)); lw != nil {
+			lw.atts = seed
+		}
 	}
 }
